@@ -25,7 +25,7 @@ def run(ctx):
         ctx.mc("MCWitness", "Witness_mc.cfg", timeout=900)
     else:
         rows = ctx.gen("MCWitness", "Witness_quick.cfg" if q else "Witness_thorough.cfg", "ROW", timeout=1200)
-        if len(rows) < 4000:
+        if len(rows) < 5500:
             ctx.fail("too few table rows generated: %d" % len(rows))
     out = ctx.driver(b, ["witness-table"], input_obj=rows)
     summ = [o for o in out if o.get("summary")]
